@@ -7,14 +7,20 @@ import comp_check
 def net_pass(rep, thorough):
     """whole-model scan: every store, arc record and admitted flow at every pre-close-out point"""
     import net_check
-    return net_check.monitor_models(rep, "C06", 800 if thorough else 120, 5)
+    seen = net_check.monitor_models(rep, "C06", 800 if thorough else 120, 5)
+    # the treatment works on their own, in the states only a history reaches (tank above a lowered capacity, effluent
+    # parked because the outfall was blocked): no reply, store or account negative after any operation
+    import corr_kinds  # noqa: F401
+    import corr_wtw
+    corr_wtw.monitor_nonneg(rep, "C06", 2500 if thorough else 300)
+    return seen
 
 RULE = ("correspondence: random operation sequences (pushes incl. forced/dry-mass/sub-epsilon, pulls, pollutant pulls, "
         "evaporation, checks, balance calls, timestep ends with varying temperature) on Tank/ResidenceTank/DecayTank, "
         "QueueTank/DecayQueueTank, Arc/PullArc/PushArc, QueueArc/DecayArc and AltQueueArc/DecayArcAlt between tank-backed or scripted (accept all / "
         "part / none, varying per call) neighbours, over random pollutant partitions; the whole observable state after "
         "every operation is compared exactly with the Gallina model. monitors: the C06 clauses evaluated directly on the "
-        "implementation after every operation of fresh sequences. non-trivial = distinct sequence of >= 3 operations")
+        "implementation after every operation of fresh sequences; treatment works (WWTW / FWTW, family wtw) compared exactly and scanned for negative replies, stores and accounts after every operation of histories with overrides and blocked outfalls; sewers and time-area groundwater (family tarea). non-trivial = distinct sequence of >= 3 operations")
 
 if __name__ == "__main__":
     sys.exit(comp_check.run("C06", "tank qtank arc qarc altarc tarea wtw".split(), RULE,
